@@ -189,6 +189,16 @@ class ExprMixin:
         return '((cc_bool)%d)' % (1 if n['value'] else 0)
     def e_CXXNullPtrLiteralExpr(self, n):
         return '0'
+    def e_CXXThrowExpr(self, n):
+        # `throw T{...}`: an exception leaves the function.  Emitted as an obligation ("not thrown") followed by a cut of the
+        # path: the contracts of this tool state exception-freedom, and what follows a throw is not executed
+        what = 'exception'
+        try:
+            inner = [c for c in n.get('inner', [])]
+            if inner: what = re.sub(r'\s+', ' ', str(inner[0].get('type', {}).get('qualType', 'exception')))[:60]
+        except Exception: pass
+        self.rules['throw-as-obligation'] += 1
+        return '({ __CPROVER_assert(0, "throw %s: no exception is thrown"); __CPROVER_assume(0); (void)0; })' % what.replace('"', "'")
     def e_StringLiteral(self, n):
         return n['value']
     def e_FloatingLiteral(self, n):
